@@ -1279,3 +1279,124 @@ def borrowed_into_owning_field(prog, fn, stats=None):
         if why:
             out.append((b, i, lk, show(r, fn), why))
     return out
+
+
+# ------------------------------------------------------------------------ destructor called on a partly initialised object
+def _destructor_reads(prog, name):
+    """Fields of parameter 0 that the destructor `name` reads (directly, before writing them)."""
+    out = set()
+    for f in prog.functions.get(name, []):
+        if not f.params:
+            continue
+        p0 = f.params[0]["n"]
+        written = set()
+        for b, i, n in f.nodes():
+            if n.get("k") == "asg":
+                lk = lvalue_key(n["l"], f) or ""
+                if lk.startswith(p0 + "->") and n["op"] == "=":
+                    written.add(lk[len(p0) + 2:].split(".")[0].split("[")[0])
+        for b, i, n in f.nodes():
+            if n.get("k") == "mem" and n.get("arrow") and is_var(n["b"], p0):
+                out.add(n["f"])
+    return out
+
+
+_mayfail = {}
+
+
+def _may_fail(prog, name, stack=()):
+    """Can a call of `name` fail because an allocation fails?  It allocates (transitively) or is an external library function that
+    creates something (curl_easy_init, OpenSSL constructors ...)."""
+    if not name:
+        return True
+    if name in _mayfail:
+        return _mayfail[name]
+    if name in ("KSI_malloc", "KSI_calloc"):
+        return True
+    if name in ("KSI_free", "memset", "memcpy", "memmove", "strlen", "time", "KSI_ERR_clearErrors", "KSI_ERR_push") or is_release(name):
+        return False
+    fns = prog.functions.get(name, [])
+    if not fns:
+        res = bool(re.search(r"(_new|_init|_create|_dup|open|alloc)", name))
+        _mayfail[name] = res
+        return res
+    if name in stack or len(stack) > 8:
+        return False
+    res = False
+    for f in fns:
+        for b, i, n in f.calls():
+            if _may_fail(prog, n.get("fn"), stack + (name,)):
+                res = True
+                break
+        if res:
+            break
+    _mayfail[name] = res
+    return res
+
+
+def _callee_stores_field(prog, name, j, field, depth=0):
+    for f in prog.functions.get(name, []):
+        if j < len(f.params):
+            pn = f.params[j]["n"]
+            for b, i, n in f.nodes():
+                if n.get("k") == "asg" and (lvalue_key(n["l"], f) or "").split(".")[0].split("[")[0] == "%s->%s" % (pn, field):
+                    return True
+                if n.get("k") == "call" and n.get("fn") and depth < 3:
+                    for j2, a in enumerate(n["a"]):
+                        if is_var(a, pn) and _callee_stores_field(prog, n["fn"], j2, field, depth + 1):
+                            return True
+    return False
+
+
+def uninitialised_at_destructor(prog, fn):
+    """`tmp = KSI_new(T)` (malloc, contents indeterminate) ... `T_free(tmp)` on some path on which a field that T_free reads has not been
+    stored: the destructor works on garbage (counter, pointers).  [(alloc block, idx, var, destructor, field, witness blocks)]"""
+    from .recycle import _avoiding_path
+    out = []
+    for b, i, n in fn.nodes():
+        if n.get("k") not in ("asg", "decl"):
+            continue
+        rhs = n.get("r") if n["k"] == "asg" else n.get("init")
+        if rhs is None:
+            continue
+        l = strip(n["l"]) if n["k"] == "asg" else {"k": "var", "n": n["n"], "s": "local"}
+        if l.get("k") != "var" or l.get("s") != "local":
+            continue
+        r0 = fn.resolve(strip(rhs))
+        while isinstance(r0, dict) and r0.get("k") == "cast":
+            r0 = fn.resolve(strip(r0["e"]))
+        c = fn.as_call(r0)
+        if c is None or c.get("fn") != "KSI_malloc":
+            continue
+        v = l["n"]
+        rels = [(b2, i2, m) for b2, i2, m in fn.calls() if is_release(m.get("fn")) and m["a"] and is_var(m["a"][0], v) and m["fn"] not in ("KSI_free", "free")]
+        for (b2, i2, m) in rels:
+            reads = _destructor_reads(prog, m["fn"])
+            if not reads:
+                continue
+            # memset(tmp, 0, ...) initialises everything
+            wipes = {(b3, i3) for b3, i3, mm in fn.calls({"memset"}) if mm["a"] and is_var(mm["a"][0], v)}
+            fallible = {b3 for b3, i3, mm in fn.calls() if _may_fail(prog, mm.get("fn")) and not (b3 == b and i3 <= i)}
+            for f in sorted(reads):
+                stores = {(b3, i3) for b3, i3, mm in fn.nodes() if mm.get("k") == "asg" and (lvalue_key(mm["l"], fn) or "").split(".")[0].split("[")[0] == "%s->%s" % (v, f)}
+                # &tmp->f passed to a constructor, memset(tmp->f, ...) or a helper that stores param->f also initialise it
+                for b3, i3, mm in fn.calls():
+                    for j, a in enumerate(mm["a"]):
+                        a0 = strip(a)
+                        if isinstance(a0, dict) and a0.get("k") == "un" and a0["op"] == "&" and (lvalue_key(a0["e"], fn) or "").split(".")[0] == "%s->%s" % (v, f):
+                            stores.add((b3, i3))
+                        elif mm.get("fn") == "memset" and j == 0 and (lvalue_key(a0, fn) or "").split("[")[0] == "%s->%s" % (v, f):
+                            stores.add((b3, i3))
+                        elif is_var(a0, v) and mm.get("fn") and _callee_stores_field(prog, mm["fn"], j, f):
+                            stores.add((b3, i3))
+                def null_edge(e, v=v):
+                    for (op, l_, r_) in edge_facts(fn, e):
+                        if op == "==" and ((is_var(l_, v) and (is_null(r_) or is_int(r_, 0))) or (is_var(r_, v) and (is_null(l_) or is_int(l_, 0)))):
+                            return True
+                    return False
+                w = _avoiding_path(fn, (b, i), [(b2, i2)], stores | wipes, skip_edge=null_edge)
+                # the error exit must be one that can really be taken: some call between the allocation and the destructor allocates
+                # (or is an external library call), so that a single failed allocation leads there
+                if w is not None and any(x in fallible for x in w):
+                    out.append((b, i, v, m["fn"], f, w))
+    return out
